@@ -294,6 +294,34 @@ def run_pow(ctx, case):
     return None
 
 
+def inplace_view_case(rng, tier):
+    D = rng.randint(2, 5)
+    P = rng.choice([1, 2])
+    n = rng.randint(2, 3)
+    from props import c01 as _c01
+    x = rand_coeffs(rng, (D, P, n, n), -2, 2)
+    x[0] = _c01.gen_x0(rng, 'nz', (P, n, n), False)
+    return {'op': rng.choice(['add', 'sub', 'mul', 'div']), 'form': 'inplace-view', 'D': D, 'P': P, 'x': x,
+            'view': rng.choice(['T', 'rev', 'same-buffer'])}
+
+
+def inplace_view_fails(case):
+    x0 = np.array(case['x'])
+    x = UTPM(x0.copy())
+    v = {'T': lambda u: u.T, 'rev': lambda u: UTPM(u.data[:, :, ::-1, ::-1]), 'same-buffer': lambda u: UTPM(u.data)}[case['view']]
+    y = v(x)
+    ycopy = UTPM(np.array(y.data))
+    want = OPS[case['op']](UTPM(x0.copy()), ycopy)
+    try:
+        got = IOPS[case['op']](x, y)
+    except Exception as ex:
+        return 'exception-%s-inplace-view: raised %s' % (case['op'], type(ex).__name__)
+    if not close(got.data, want.data, 1e-10):
+        return 'mismatch-%s-inplace-view: x %s= <%s view of x> differs from the binary expression x %s copy(view), max diff %s' % (
+            case['op'], case['op'], case['view'], case['op'], maxdiff(got.data, want.data))
+    return None
+
+
 def oracle_fails(case):
     """ring identities on the implementation alone: (x/y)*y == x ; (x*y)/y == x"""
     if case.get('op') not in ('mul', 'div') or case['form'] != 'bin':
@@ -324,6 +352,8 @@ def nontrivial(case):
 
 
 def dispatch(ctx, case):
+    if case.get('form') == 'inplace-view':
+        return inplace_view_fails(case)
     if case.get('op') == 'pow':
         return run_pow(ctx, case)
     return run_case(ctx, case)
@@ -331,6 +361,13 @@ def dispatch(ctx, case):
 
 def run(ctx):
     n = 500 if ctx.tier == 'quick' else 8000
+    for i in range(n // 10):
+        case = inplace_view_case(ctx.rng, ctx.tier)
+        ctx.evaluations += 1
+        ctx.count('op=' + case['op'], 'form=inplace-view', 'view=' + case['view'])
+        f = inplace_view_fails(case)
+        if f:
+            ctx.report(case, 'failure', f)
     for i in range(n):
         case = gen_pow(ctx.rng, ctx.tier) if i % 6 == 5 else gen_case(ctx.rng, ctx.tier)
         ctx.evaluations += 1
